@@ -58,7 +58,9 @@ def _inlineable(h):
     for n in ast.walk(h.node):
         if n is not h.node and isinstance(n, (ast.FunctionDef, ast.AsyncFunctionDef, ast.Lambda, ast.ClassDef)):
             return False
-        if isinstance(n, (ast.Global, ast.Nonlocal)):
+        if isinstance(n, ast.Nonlocal):
+            return False
+        if isinstance(n, ast.Global) and h.cls is not None:
             return False
         if isinstance(n, ast.Call) and ((isinstance(n.func, ast.Name) and n.func.id == h.name) or
                                         (isinstance(n.func, ast.Attribute) and n.func.attr == h.name)):
@@ -168,7 +170,7 @@ def _bind(h, base, call, tag):
 
 
 def _body_copy(h, subst):
-    body = [copy_tree(st) for st in h.node.body]
+    body = [copy_tree(st) for st in h.node.body if not isinstance(st, ast.Global)]
     if body and isinstance(body[0], ast.Expr) and isinstance(body[0].value, ast.Constant) and isinstance(body[0].value.value, str):
         body = body[1:]
     return [subst.visit(st) for st in body]
@@ -178,6 +180,7 @@ class _Inliner:
     def __init__(self, P, f, keep=()):
         self.P, self.f = P, f
         self.keep = keep
+        self.globals = set()
         self.count = 0
         self.inlined = []
 
@@ -206,6 +209,9 @@ class _Inliner:
             return None
         prelude, subst = b
         body = _body_copy(h, subst)
+        for st in h.node.body:
+            if isinstance(st, ast.Global):
+                self.globals.update(st.names)
         new, falls = _structure_returns(body, on_return)
         if need_value and falls:
             # falling off the end returns None
@@ -290,6 +296,9 @@ def inlined_view(P, f, keep=()):
     if not inl.inlined:
         _cache[key] = f
         return f
+    have = {n_ for st in node.body if isinstance(st, ast.Global) for n_ in st.names}
+    if inl.globals - have:
+        node.body.insert(0, ast.copy_location(ast.Global(names=sorted(inl.globals - have)), node.body[0]))
     ast.fix_missing_locations(node)
     for parent in ast.walk(node):
         for child in ast.iter_child_nodes(parent):
